@@ -139,24 +139,24 @@ type CallSitesDecl struct {
 }
 
 type ContractDB struct {
-	Enums     []*EnumDecl
-	CallSites []*CallSitesDecl
-	FuncAlias    map[string]string   // "pkg.Var" -> full name of the function the variable is initialised with
+	Enums          []*EnumDecl
+	CallSites      []*CallSitesDecl
+	FuncAlias      map[string]string // "pkg.Var" -> full name of the function the variable is initialised with
 	FuncAliasProps map[string][]string
-	LibFrame     map[string]bool     // library packages assumed not to touch module-private state
-	ZeroGlobals  map[string][]string // "pkg.name" -> properties: never assigned, keeps its zero value
-	ConstGlobals map[string][]string // "pkg.name" -> properties: assigned once in init with a fresh object
-	Writes  []*WritesDecl
-	Covers  []*CoverDecl
-	Funcs   map[string]*FuncContract
-	Specs   map[string]*SpecFn
-	Ghosts  map[string]*GhostDecl
-	Axioms  []*Axiom
-	Lemmas  []*Lemma
-	Sealed  map[string]string // interface type key -> concrete type text
-	Pure    map[string]bool   // functions declared pure (no heap effect)
-	Classes []*FieldClass
-	Files   []string
+	LibFrame       map[string]bool     // library packages assumed not to touch module-private state
+	ZeroGlobals    map[string][]string // "pkg.name" -> properties: never assigned, keeps its zero value
+	ConstGlobals   map[string][]string // "pkg.name" -> properties: assigned once in init with a fresh object
+	Writes         []*WritesDecl
+	Covers         []*CoverDecl
+	Funcs          map[string]*FuncContract
+	Specs          map[string]*SpecFn
+	Ghosts         map[string]*GhostDecl
+	Axioms         []*Axiom
+	Lemmas         []*Lemma
+	Sealed         map[string]string // interface type key -> concrete type text
+	Pure           map[string]bool   // functions declared pure (no heap effect)
+	Classes        []*FieldClass
+	Files          []string
 	// file-scoped package context for name resolution
 	FilePkg map[string]string // file -> package import path
 }
